@@ -330,9 +330,10 @@ func (h *Handler) ProcessPacket(frame packet.Frame) error {
 		}
 		// if we are spoofing the src host and the src host is trying to discover the router IP,
 		// reply on behalf of the router
+		//
+		// The reply is written before the mutex is released, see spoofLoop.
 		h.arpMutex.Lock()
 		_, hunting := h.huntList[string(arpFrame.SrcMAC())]
-		h.arpMutex.Unlock()
 		if hunting && arpFrame.DstIP() == h.session.NICInfo.RouterAddr4.IP {
 			if Logger.IsDebug() {
 				Logger.Msg("router spoofing - send reply I am").IP("ip", arpFrame.DstIP()).MAC("dstmac", arpFrame.SrcMAC()).Write()
@@ -340,8 +341,10 @@ func (h *Handler) ProcessPacket(frame packet.Frame) error {
 			if err := h.Reply(arpFrame.SrcMAC(), packet.Addr{MAC: h.session.NICInfo.HostAddr4.MAC, IP: arpFrame.DstIP()}, packet.Addr{MAC: arpFrame.SrcMAC(), IP: arpFrame.SrcIP()}); err != nil {
 				Logger.Msg("failed to send spoofing reply").MAC("mac", arpFrame.SrcMAC()).Error(err).Write()
 			}
+			h.arpMutex.Unlock()
 			return nil
 		}
+		h.arpMutex.Unlock()
 
 	case probe:
 		// We are interested in probe ACD (Address Conflict Detection) packets for IPs that we have an open DHCP offer
